@@ -331,7 +331,7 @@ for _n in range(0, 5):
 SPF = BASE + '.send_priority_frame'
 
 
-@harness('c05.send_priority_frame', ['C05', 'C16', 'C08', 'C01'], functions=[SPF],
+@harness('c05.send_priority_frame', ['C05', 'C16', 'C08', 'C01'], functions=[SPF], fallback=r'^c05\.send_priority_frame\[',
          assumptions=['the drained items are held in a Python list: modelled as a list of symbolic length (append / len / iteration in '
                       'order); asyncio.Queue put_nowait / get_nowait / empty as modelled (FIFO)'])
 def priority_unbounded(E):
@@ -410,7 +410,7 @@ def _priority(n):
 
 
 for _n in range(0, 6):
-    harness('c05.send_priority_frame[queue_length=%d]' % _n, ['C05', 'C16'], functions=[BASE + '.send_priority_frame'], kind='bounded',
+    harness('c05.send_priority_frame[queue_length=%d]' % _n, ['C05', 'C16', 'C08', 'C01'], functions=[BASE + '.send_priority_frame'], kind='bounded',
             assumptions=['BOUNDED stand-in: head insert checked for queue lengths 0..5 with generic items (the two loops are '
                          'element-independent); not counted as proved'])(_priority(_n))
 
@@ -466,6 +466,9 @@ KNOWN_QUEUE_METHODS = {'send_frame', 'send_priority_frame', '_get_next_frame_to_
                        '_is_stream_queued_behind_head', '_sender'}
 
 
+READ_ONLY_QUEUE_OPS = {'qsize', 'empty', 'full', 'peek', 'peek_nowait', 'contains_after_head'}
+
+
 def _queue_mutators(E):
     """Methods of RSocketBase (and subclasses in the same files) whose body calls something on self._send_queue."""
     import ast as _ast
@@ -475,9 +478,15 @@ def _queue_mutators(E):
         tree = _ast.parse(open(_os.path.join(E.repo_root, rel)).read())
         for cls in [n for n in tree.body if isinstance(n, _ast.ClassDef)]:
             for fn in [n for n in cls.body if isinstance(n, (_ast.FunctionDef, _ast.AsyncFunctionDef))]:
+                # any mention of self._send_queue counts (a method call on it, or taking it into a local alias) - except as the
+                # receiver of a call that only OBSERVES the queue (logging its size, testing emptiness, peeking)
+                observers = set()
                 for n in _ast.walk(fn):
-                    # any mention of self._send_queue counts (a method call on it, or taking it into a local alias)
-                    if isinstance(n, _ast.Attribute) and n.attr == '_send_queue' and isinstance(n.ctx, _ast.Load):
+                    if isinstance(n, _ast.Call) and isinstance(n.func, _ast.Attribute) and n.func.attr in READ_ONLY_QUEUE_OPS \
+                            and isinstance(n.func.value, _ast.Attribute) and n.func.value.attr == '_send_queue':
+                        observers.add(id(n.func.value))
+                for n in _ast.walk(fn):
+                    if isinstance(n, _ast.Attribute) and n.attr == '_send_queue' and isinstance(n.ctx, _ast.Load) and id(n) not in observers:
                         out.append((rel, cls.name, fn.name, 'uses', isinstance(fn, _ast.AsyncFunctionDef), len(fn.args.args) - 1))
                         break
     return out
